@@ -53,14 +53,16 @@ MatchRules ==
   {[k |-> "MATCH", pat |-> pat, src |-> s, dst |-> d, with |-> w, from |-> "r"] :
      pat \in Pats, s \in {<< >>, <<"d">>}, d \in {<< >>, <<"d">>}, w \in {"M", "P"}}
 BadDisallow == Simple("DISALLOW", <<"[">>)
-AllRules == SimpleRules \cup MatchRules \cup {BadDisallow}
+\* the uninterpretable part may come after literal text (or after a wildcard)
+BadDisallows == {BadDisallow, Simple("DISALLOW", <<"d", "/", "[">>), Simple("DISALLOW", <<"a", "[">>), Simple("DISALLOW", <<"*", "[">>)}
+AllRules == SimpleRules \cup MatchRules \cup BadDisallows
 
 \* sub-alphabet for ordered pairs
 PairRules ==
   {Simple(k, pat) : k \in Kinds \ {"MATCH"}, pat \in {<<"a">>, <<"*">>}}
   \cup {[k |-> "MATCH", pat |-> pat, src |-> s, dst |-> d, with |-> "P", from |-> "r"] :
           pat \in {<<"*">>, <<"a">>}, s \in {<< >>, <<"d">>}, d \in {<< >>, <<"d">>}}
-  \cup {BadDisallow}
+  \cup {BadDisallow, Simple("DISALLOW", <<"a", "[">>)}
 
 \* covering subset of link states for the pair mode
 PairItemStates ==
